@@ -307,6 +307,8 @@ class Check:
         self.only = only       # (rule, key) filter for replay
         self.floor = 0
         self.unrecognised = []
+        self._templates = None
+        self._repo = None
         self.explanation = ""
         self.trusted = []
 
@@ -318,6 +320,11 @@ class Check:
     def ob(self, rule, key, ok, where="", msg="", nontrivial=True, detail=None):
         """one rule instance.  key identifies the construct (stable under
         line-number changes); msg says what was checked / what is wrong."""
+        if ok is not None and not ok and self._templates is not None and self._is_template(rule, key):
+            cls = self._classify(where)
+            if cls == "restructured":
+                ok = None
+                msg = msg + " [the function at %s was restructured since the reviewed baseline: the construct this template rule looks for is not recognised]" % where
         if ok is None:
             # the construct the rule is about was not recognised in the current source (a restructured or renamed idiom):
             # no verdict for this instance -- the run ends as analysis-broken unless a real violation is found elsewhere
@@ -329,6 +336,81 @@ class Check:
             rec["detail"] = detail
         self.obl.append(rec)
         return bool(ok)
+
+    # -- template rules ---------------------------------------------------
+    def set_templates(self, repo, semantic=()):
+        """every rule of this check is a template rule (see obt) except those whose id, or 'id::key prefix', is listed in `semantic`:
+        rules decided by term equality, effect analysis, or dominance over resolved calls keep their verdict however the code is laid out"""
+        self._templates = tuple(semantic)
+        self._repo = repo
+
+    def _is_template(self, rule, key):
+        for s_ in self._templates:
+            if s_ == rule or (s_.startswith(rule + "::") and key.startswith(s_[len(rule) + 2:])) or ("::" not in s_ and rule.startswith(s_ + ".")):
+                return False
+        return True
+
+    def _classify(self, where):
+        """how the python function containing `where` (path:line) changed relative to the baseline: same / leaf / restructured / None"""
+        from . import rename
+        try:
+            path, line = where.rsplit(":", 1)
+            line = int(line)
+        except Exception:
+            return None
+        if path.endswith((".c", ".cc", ".cpp", ".h", ".hpp")):
+            return self._classify_c(path, line)
+        if not path.endswith(".py"):
+            return None
+        best = None
+        for fi in self._repo.funcs.values():
+            if os.path.relpath(fi.path, REPO) == path and fi.node.lineno <= line <= getattr(fi.node, "end_lineno", fi.node.lineno):
+                if best is None or fi.node.lineno > best.node.lineno:
+                    best = fi
+        if best is None:
+            return None
+        q = ("%s.%s" % (best.cls, best.name)) if best.cls else best.name
+        return rename.change_kind(best.node, rename.baseline_func(path, q))
+
+    def _classify_c(self, path, line):
+        from . import cfront
+        tus = [k for k, v in cfront.TUS.items() if v["path"] == path]
+        if not tus:
+            return None
+        try:
+            cur = cfront.functions(cfront.load_tu(tus[0]))
+            base = cfront.baseline_functions(tus[0]) or {}
+        except AnalysisError:
+            return None
+        best = None
+        for name, d in cur.items():
+            if "::" in name or name not in [n for n in cur if "::" in n and n.endswith("::" + name)]:
+                lo = d.get("line", 0)
+                hi = max([x.get("line", lo) for x in cfront.walk(d)] or [lo])
+                if lo <= line <= hi and (best is None or lo > best[1]):
+                    best = (name, lo, d)
+        if best is None:
+            return None
+        return cfront.c_change_kind(best[2], base.get(best[0]))
+
+    def obt(self, rule, key, ok, fi, where="", msg="", **kw):
+        """a *template* rule instance: it recognises its construct by the shape the reviewed code has today.  When it fails and the
+        function it looks at was restructured since the reviewed baseline (statements added, removed, split, merged or re-nested)
+        the construct is not recognised and there is no verdict (analysis error); when the function is unchanged or changed only in
+        identifiers, constants or operators, the failing instance is a violation.  fi: FuncInfo or list of FuncInfo the rule reads."""
+        if ok:
+            return self.ob(rule, key, True, where or (fi[0] if isinstance(fi, (list, tuple)) else fi).where(), msg, **kw)
+        from . import rename
+        fis = list(fi) if isinstance(fi, (list, tuple)) else [fi]
+        kinds = []
+        for f in fis:
+            rel = os.path.relpath(f.path, REPO)
+            q = ("%s.%s" % (f.cls, f.name)) if f.cls else f.name
+            kinds.append(rename.change_kind(f.node, rename.baseline_func(rel, q)))
+        w = where or fis[0].where()
+        if "restructured" in kinds:
+            return self.ob(rule, key, None, w, msg + " [%s was restructured since the reviewed baseline: construct not recognised]" % ", ".join(f.name for f in fis), **kw)
+        return self.ob(rule, key, False, w, msg, **kw)
 
     def observe(self, rule, where, msg):
         self.observations.append({"rule": rule, "where": where, "msg": msg})
